@@ -15,6 +15,7 @@ import (
 	"verifsim/view"
 
 	pipeline "github.com/buildkite/go-pipeline"
+	"github.com/buildkite/go-pipeline/signature"
 )
 
 func C01() *engine.Scenario {
@@ -356,6 +357,29 @@ func (t *tamper) apply(kind int) string {
 		}
 		var ls []*gen.Node
 		leaves(m, &ls)
+		if m.Kind == gen.KMap && t.draw(5, "mut:matrix-rename-dim") == 4 {
+			// dimension names are content, also when a dimension has no values yet
+			if su := m.Get("setup"); su != nil && su.Kind == gen.KMap && len(su.Keys) > 0 {
+				i := t.draw(len(su.Keys), "mut:dimidx")
+				old := su.Keys[i]
+				nk := old + "_renamed"
+				if !su.Has(nk) {
+					su.Keys[i] = nk
+					if adj := m.Get("adjustments"); adj != nil && adj.Kind == gen.KSeq {
+						for _, a := range adj.Seq {
+							if w := a.Get("with"); w != nil && w.Kind == gen.KMap {
+								for j, k := range w.Keys {
+									if k == old {
+										w.Keys[j] = nk
+									}
+								}
+							}
+						}
+					}
+					return "rename.matrix-dimension"
+				}
+			}
+		}
 		if m.Kind == gen.KMap && t.draw(4, "mut:matrix-dim") == 3 {
 			su := m.Get("setup")
 			if su != nil && su.Kind == gen.KSeq && len(su.Seq) > 0 {
@@ -650,6 +674,20 @@ func signedContentJSON(j *job) string {
 	return string(c.ToJSON(gen.SortedKeyOrder)) + fmt.Sprint(keys)
 }
 
+// partialFielder signs exactly the fields it is given (a stand-in for an older signer).
+type partialFielder map[string]any
+
+func (p partialFielder) SignedFields() (map[string]any, error) {
+	out := map[string]any{}
+	for k, v := range p {
+		out[k] = v
+	}
+	return out, nil
+}
+func (p partialFielder) ValuesForFields(fields []string) (map[string]any, error) {
+	return p.SignedFields()
+}
+
 const nTamperKinds = 25
 
 func runC01(c *engine.Ctx) {
@@ -661,7 +699,7 @@ func runC01(c *engine.Ctx) {
 	o := w.opts(4)
 	o.OnlyCommandish = p.Draw(2, "cfg:onlycmd") == 1
 	doc := o.Pipeline()
-	src, format := gen.Render(p, doc, true)
+	src, format := gen.RenderMaybeMerged(p, doc, true)
 	c.Ev("doc", format, len(src), tape.HashString(string(src)))
 	c.Sample = map[string]any{"format": format, "document": truncate(string(src), 1200), "key": kp.kind}
 	pl, _ := parseDoc(c, "C01.panic", src)
@@ -783,6 +821,135 @@ func runC01(c *engine.Ctx) {
 		}
 		c.Probe("tampered_jobs_rejected")
 	}
+	// ---- in-memory presentation: the verifier holds the uploader's own step objects (no wire in between)
+	// and one field is changed in place (then restored)
+	walkCommandSteps(pl.Steps, func(cs *pipeline.CommandStep, depth int) {
+		if cs.Signature == nil || c.Sched.Draw(3, "mem:tamper?") != 0 {
+			return
+		}
+		env := map[string]string{}
+		for k, v := range u.signEnv {
+			env[k] = v
+		}
+		for k, v := range cs.Env {
+			env[k] = v
+		}
+		if v := agentVerifyStep(c, "C01", cs, env, repoURL, kp.pub, context.Background(), nil); v.verifyErr != nil {
+			c.Probe("untouched_in_memory_step_rejected_not_judged")
+			return
+		}
+		var undo func()
+		name := ""
+		switch c.Sched.Draw(4, "mem:kind") {
+		case 0:
+			old := cs.Command
+			cs.Command, name = old+" # tampered", "memory.command"
+			undo = func() { cs.Command = old }
+		case 1:
+			if len(cs.Plugins) == 0 {
+				return
+			}
+			pl := cs.Plugins[c.Sched.Draw(len(cs.Plugins), "mem:plugin")]
+			old := pl.Config
+			switch x := old.(type) {
+			case string:
+				pl.Config = x + "-tampered"
+			case bool:
+				pl.Config = !x
+			case int:
+				pl.Config = x + 1
+			case float64:
+				pl.Config = x + 1
+			case []any:
+				pl.Config = append(append([]any{}, x...), "tampered")
+			case nil:
+				pl.Config = "tampered"
+			default:
+				return
+			}
+			name = "memory.plugin-config-non-mapping"
+			undo = func() { pl.Config = old }
+		case 2:
+			if len(cs.Plugins) == 0 {
+				return
+			}
+			pl := cs.Plugins[c.Sched.Draw(len(cs.Plugins), "mem:plugin")]
+			old := pl.Source
+			pl.Source, name = old+"-tampered", "memory.plugin-source"
+			undo = func() { pl.Source = old }
+		default:
+			if cs.Matrix == nil || len(cs.Matrix.Setup) == 0 {
+				return
+			}
+			for d, vals := range cs.Matrix.Setup {
+				old := vals
+				cs.Matrix.Setup[d] = append(append([]string{}, vals...), "tampered")
+				undo = func() { cs.Matrix.Setup[d] = old }
+				break
+			}
+			name = "memory.matrix-value"
+		}
+		if undo == nil {
+			return
+		}
+		c.Fault(name, depth)
+		v := agentVerifyStep(c, "C01", cs, env, repoURL, kp.pub, context.Background(), nil)
+		undo()
+		anyNonTrivial = true
+		fpKinds = append(fpKinds, name)
+		if v.verifyErr == nil {
+			c.Fail("C01.accepted-tampered", name, "Verify returned nil for an in-memory step whose content was changed after signing (%s) under key kind %s\ndocument (%s):\n%s", name, kp.kind, format, truncate(string(src), 1200))
+		}
+		c.Probe("tampered_jobs_rejected")
+	}, 0)
+
+	// ---- a record that does not list every mandatory field must be rejected even when its signature is
+	// genuine for the fields it does list (an older or partial signer), whatever padding the list carries
+	if c.Sched.Draw(4, "legacy:try?") == 3 {
+		walkCommandSteps(pl.Steps, func(cs *pipeline.CommandStep, depth int) {
+			if cs.Signature == nil || c.Sched.Draw(2, "legacy:here") == 0 {
+				return
+			}
+			mand := []string{"command", "env", "plugins", "matrix", "repository_url"}
+			dropped := mand[c.Sched.Draw(len(mand), "legacy:drop")]
+			full := &signature.CommandStepWithInvariants{CommandStep: *cs, RepositoryURL: repoURL}
+			all, err := full.SignedFields()
+			if err != nil {
+				return
+			}
+			delete(all, dropped)
+			var sig *pipeline.Signature
+			c.Guard("C01.panic", "Sign partial field set", func() {
+				sig, err = signature.Sign(context.Background(), kp.priv, partialFielder(all), signature.WithEnv(u.signEnv))
+			})
+			if err != nil || sig == nil {
+				return
+			}
+			// pad the list so that its length (but not its set) reaches the full count
+			keep := sig.SignedFields[0]
+			if c.Sched.Draw(2, "legacy:pad") == 1 {
+				sig.SignedFields = append(sig.SignedFields, keep)
+			}
+			env := map[string]string{}
+			for k, v := range u.signEnv {
+				env[k] = v
+			}
+			for k, v := range cs.Env {
+				env[k] = v
+			}
+			probe := *cs
+			probe.Signature = sig
+			c.Fault("record.partial-field-set-genuinely-signed", dropped)
+			v := agentVerifyStep(c, "C01", &probe, env, repoURL, kp.pub, context.Background(), nil)
+			anyNonTrivial = true
+			fpKinds = append(fpKinds, "partial:"+dropped)
+			if v.verifyErr == nil {
+				c.Fail("C01.accepted-tampered", "record.partial-field-set-genuinely-signed", "Verify returned nil for a record whose field list %q lacks the mandatory field %q (its signature is genuine for the listed fields only)\ndocument (%s):\n%s", sig.SignedFields, dropped, format, truncate(string(src), 1000))
+			}
+			c.Probe("tampered_jobs_rejected")
+		}, 0)
+	}
+
 	sort.Strings(fpKinds)
 	feats := map[string]bool{}
 	for _, j := range jobs {
